@@ -5,6 +5,12 @@ VERIF = os.path.dirname(os.path.dirname(os.path.abspath(__file__)))
 props = {json.loads(l)["id"]: json.loads(l) for l in open(os.path.join(VERIF, "properties.jsonl"))}
 
 CHECKS = {
+ "C03": dict(cat="exploration", technique="stateful property-based testing: generated chains + schedules incl. user RPC calls, real client synced against the simulated network, answers compared with an independent reference index",
+   text="Generated UTXO histories (same-block chains, typed cells, prefix-sharing scripts) are synced through generated schedules interleaving fetch_transaction / fetch_header / set_scripts / restarts; after a fair drain get_cells / get_transactions / get_cells_capacity must equal the simulator's own reference index (complete for in-range activity, exact for everything in range). Exploration, not exhaustive.",
+   note="Scoping S1 (don't-care before a script's start). Trusted base: honest server model and the reference index (written from the chain, shares no code with the client).", ref="6/C03"),
+ "C09": dict(cat="exploration", technique="stateful property-based testing with a README model of the script set; invariants checked after every call and every step, reference index at the end",
+   text="Schedules dense in set_scripts(all|partial|delete) issued at every kind of moment of an ongoing sync (pending / partly downloaded matched blocks). After each call the script set must equal the documented model and nothing may stay pending; after every step no script may be reported as filtered beyond a block whose in-range activity is not indexed; after the drain the C03 oracle holds.",
+   note="Same trusted base as C03; progress numbers of unmentioned scripts may lag (read from the code), only over-claims are violations.", ref="6/C09"),
  "C05": dict(cat="exploration", technique="stateful property-based testing (proptest-generated chains and schedules) of the real client against a simulated honest network; oracle = no ban / only documented timeouts / fair drain reaches the heaviest tip + reference index",
    text="Generated chains (per-epoch difficulty within tau, 1..300 quick / ..2500 thorough blocks, Eaglesong-mined) are synced end to end by the unmodified handlers through generated schedules (delivery order, ticks, growth, restarts, peers at different heights, H3-seeded samples). Any ban or non-timeout disconnect of an honest peer, or a quiescent state that is not the goal, is a violation. Exploration of a very large history space, no exhaustiveness.",
    note="Trusted base: the re-implemented honest server (DESIGN 4.2). Known findings D12 (e2e), D14, D15 tolerated by signature and end the history; forks are exercised in C04.", ref="6/C05"),
